@@ -335,18 +335,29 @@ WITNESSES["C04-D4"] = (w_c04d4, "C04-D4")
 
 
 def classify_c04d4(m, api, opts, detail, rng, init_inputs) -> bool:
-    """The failure is the untyped-graph-output defect: only with onnx_shape_inference=False, and gone with it on."""
-    if api != "optimize" or opts.get("onnx_shape_inference", True) is not False:
+    """The failure is the CSE defect: a graph output of the result lacks its type or shape, and the very same call
+    with onnx_ir's CommonSubexpressionEliminationPass disabled passes every C04 clause."""
+    if api != "optimize":
         return False
-    if "Field 'type' of 'value_info' is required but missing" not in detail:
+    if ("Field 'type' of 'value_info' is required but missing" not in detail
+            and "Field 'shape' of 'type' is required but missing" not in detail):
         return False
     try:
         m2 = apply_api(api, m, opts)
     except Exception:
         return False
-    if all(o.type.HasField("tensor_type") or o.type.HasField("sequence_type") for o in m2.graph.output):
+    if all((o.type.HasField("tensor_type") and o.type.tensor_type.HasField("shape")) or o.type.HasField("sequence_type")
+           for o in m2.graph.output):
         return False
-    return judge_validity(m, api, dict(opts, onnx_shape_inference=True), rng, init_inputs) is None
+    import onnx_ir.passes.common as cp
+
+    cls = cp.CommonSubexpressionEliminationPass
+    orig_call = cls.call
+    cls.call = lambda self, model: ir.passes.PassResult(model, modified=False)
+    try:
+        return judge_validity(m, api, opts, rng, init_inputs) is None
+    finally:
+        cls.call = orig_call
 
 
 def w_c04d5():
@@ -385,6 +396,23 @@ def w_c04d6():
 
 
 WITNESSES["C04-D6"] = (w_c04d6, "C04-D6")
+
+
+def w_c04d7():
+    sh = nh.from_array(np.array([1], dtype=np.int64), "s")
+    return _model([h.make_node("Expand", ["x", "s"], ["y"])], [vi("x", TP.FLOAT, [1]), vi("s", TP.INT64, [1])],
+                  [vi("y", TP.FLOAT, [None])], [sh]), {"s": np.array([3], dtype=np.int64)}
+
+
+WITNESSES["C04-D7"] = (w_c04d7, "C04-D7")
+
+
+def classify_c04d7(m, detail, rng, init_inputs) -> bool:
+    """The override divergence is produced by the rewrite pass alone (a rule read an initializer-input's default)."""
+    if "with overridden initializer-inputs" not in detail:
+        return False
+    d = judge_validity(m, "rewrite", {}, rng, init_inputs)
+    return d is not None and "with overridden initializer-inputs" in d
 
 
 def load_corpus(name: str):
